@@ -317,6 +317,28 @@ def canonicalise_fns(prog):
         scored.sort(reverse=True)
         if scored and scored[0][0] >= 0.5 and (len(scored) == 1 or scored[0][0] - scored[1][0] >= 0.15):
             proposals.append((scored[0][0], canon, scored[0][1]))
+            continue
+        # second stage: a free function turned into a method (or back), or a parameter reordered — same source
+        # module (file), any signature, but a much closer feature match is required
+        top = r["module"]
+        while top.count("::") > 1 and not any(m == top for m in by_module):
+            top = top.rsplit("::", 1)[0]
+        file_mod = "::".join(r["module"].split("::")[:2])
+        scored = []
+        for m2, fl in by_module.items():
+            if not (m2 == file_mod or m2.startswith(file_mod + "::")):
+                continue
+            for f in fl:
+                if f.path not in feats_cache:
+                    feats_cache[f.path] = fn_features(f)
+                got = feats_cache[f.path]
+                if len(want) < 6:
+                    continue
+                j = len(want & got) / max(1, len(want | got))
+                scored.append((j, f.path))
+        scored.sort(reverse=True)
+        if scored and scored[0][0] >= 0.75 and (len(scored) == 1 or scored[0][0] - scored[1][0] >= 0.2):
+            proposals.append((scored[0][0] - 0.25, canon, scored[0][1]))
     # one actual function can play one role only: best score first
     used = set()
     for sc, canon, actual in sorted(proposals, reverse=True):
